@@ -35,6 +35,8 @@ class Recorder:
         self.n_asg = 0
         self.n_sus = 0
         self.results = []       # (tick, failed, error, container_id)
+        self.starts = {}        # id(operator) -> tick of the latest executed assignment holding it
+        self.durations = []     # per result: ticks from the tick its assignment was executed to the tick of the result, inclusive
         self.sched_calls = 0
         self.exec_calls = 0
         self.adopted = False
@@ -52,6 +54,7 @@ def _exec(self, suspensions, assignments):
     w.exec_call = lambda s, a: _o_exec(self, s, a)
     r.exec_calls += 1
     n0 = len(w.mm)
+    t_exec = w.tick
     res = w.exec_phase(suspensions, assignments)
     if w.ended and w.exception is not None and w.exception[0] == "exec":
         e = w.exception[2]
@@ -62,8 +65,15 @@ def _exec(self, suspensions, assignments):
             m.tags.add("C08")
     r.n_asg += len(assignments)
     r.n_sus += len(suspensions)
+    for a in assignments:
+        for op in a.ops:
+            r.starts[id(op)] = t_exec
     for x in res:
         r.results.append((w.tick - 1, x.failed(), x.error, x.container_id))
+        if x.ops and id(x.ops[0]) in r.starts:
+            r.durations.append(w.tick - 1 - r.starts[id(x.ops[0])] + 1)
+        else:
+            r.durations.append(None)
     if r.pm is not None and r.sc["scheduler"] == "overbook":
         r.pm.after_exec_overbook()
     w.boundary_checks()
@@ -278,6 +288,26 @@ def recount(sc, r, stats):
         flag("containers-completed", f"{stats.containers_completed} vs {ok} success results")
     if not same(float(stats.throughput), ok / sc["duration"]):
         flag("throughput", f"{stats.throughput} vs {ok}/{sc['duration']}")
+    # the run-level p99 is taken over the run times of exactly the containers that delivered a result (success or failure)
+    top = getattr(stats, "p99_latency", None)
+    if top is not None and None not in r.durations:
+        top = float(top)
+        if r.durations:
+            s_ = sorted(r.durations)
+            k = 0.99 * (len(s_) - 1)
+            lo, hi = s_[math.floor(k)] / tps, s_[math.ceil(k)] / tps
+            if not (same(top, pct99(r.durations) / tps) or (lo - 1e-9 <= top <= hi + 1e-9)):
+                flag("container-p99", f"p99_latency={top}, recount {pct99(r.durations) / tps} over the run times of the {len(s_)} containers that reported a result: {s_[:40]}")
+        elif not math.isnan(top):
+            flag("container-p99", f"p99_latency={top} although no container reported a result (expected NaN)")
+    recorded = getattr(getattr(w, "executor", None), "container_tick_times", None)
+    if callable(recorded) and None not in r.durations:
+        try:
+            rec_l = sorted(recorded())
+        except Exception:
+            rec_l = None
+        if rec_l is not None and rec_l != sorted(r.durations):
+            flag("container-run-times", f"the run times behind p99_latency {rec_l[:40]} are not those of the {len(r.durations)} containers that reported a result {sorted(r.durations)[:40]}")
     if stats.assignments != r.n_asg:
         flag("assignments", f"{stats.assignments} vs {r.n_asg} issued")
     if stats.suspensions != r.n_sus:
@@ -336,6 +366,18 @@ def space(kind, tier):
                             combo = (batch, ("Q", qarr, "single", ("s1",)))
                             out.append(("priority", cfg, combo, tps, durt, dict(over=9.5), None))
                             out.append(("priority", cfg, combo + (("Q", qarr, "single", ("s2",)),), tps, durt, dict(over=9.5), None))
+        # ... and preemption FOLLOWED by a failure of the resumed work: the operator behind the boundary does not fit into the
+        # allocation the container is resumed with (short fillers / two queries free more than it held, so it is resumed as it was)
+        for cfg in ((1, 3, 40, True, False), (1, 4, 40, True, False), (1, 20, 200, True, False)):
+            nf = min(cfg[1] - 1, 3)
+            over = max(1, int(cfg[2] / 10)) + 0.5
+            for batch in (("B", 0, "chain2", ("s2", "over")), ("B", 0, "chain3", ("s1", "over", "s1")), ("I", 0, "chain3", ("s2", "s1", "over"))):
+                for fprof in (("s3",), ("s9",)):
+                    for qarr in (1, 2, 3):
+                        for nq in (1, 2):
+                            for durt in ((14, 24) if q else (10, 14, 18, 24)):
+                                combo = (batch,) + tuple(("B", 0, "single", fprof) for _ in range(nf)) + tuple(("Q", qarr, "single", ("s1",)) for _ in range(nq))
+                                out.append(("priority", cfg, combo, 1, durt, dict(over=over), None))
         return out
     if kind == "dags":
         # every DAG shape through the real main loop with single-operator containers: sibling containers that
